@@ -47,6 +47,13 @@ impl SlotVersion {
 }
 
 impl ArchetypeVersion {
+    /// Verification hook: build an archetype version from a raw value.
+    #[cfg(gecs_verif)]
+    #[inline(always)]
+    pub(crate) fn verif_new(version: NonZeroU32) -> Self {
+        Self { version }
+    }
+
     #[inline(always)]
     pub(crate) fn start() -> Self {
         Self {
